@@ -121,10 +121,19 @@ theorem own_path {t : Tree} {e : Entry} {d : PathK} (hp : parentOf t (parts e.na
     (hal : aliasFlag t e = []) (hne : parts e.name ≠ []) :
     d ++ [(parts e.name).getLastD []] = parts e.name := by
   unfold aliasFlag at hal
-  rw [hp] at hal
-  by_cases hd : d = (parts e.name).dropLast
-  · rw [hd]; exact dropLast_getLastD _ hne
-  · simp [hd] at hal
+  split at hal
+  · cases hal
+  · rw [hp] at hal
+    by_cases hd : d = (parts e.name).dropLast
+    · rw [hd]; exact dropLast_getLastD _ hne
+    · simp [hd] at hal
+
+/-- no alias flag: the header name is a clean path -/
+theorem clean_of_aliasFlag {t : Tree} {e : Entry} (hal : aliasFlag t e = []) : joinNames (parts e.name) = e.name := by
+  unfold aliasFlag at hal
+  split at hal
+  · cases hal
+  · rename_i h; simpa using h
 
 theorem append_eq_self {α} (l x : List α) (h : l ++ x = l) : x = [] := by
   have := congrArg List.length h
@@ -326,80 +335,101 @@ theorem Shape.congr {i : Nat} {e : Entry} {st st1 st' : St} (ht : st'.tree = st1
 /-- well-formed header name of a file or symlink: a clean relative path with at least one component -/
 def WF (e : Entry) : Prop := e.kind ≠ .dir → (joinNames (parts e.name) = e.name ∧ parts e.name ≠ [])
 
+/-- the name of a file or symlink has at least one component (both install loops refuse an empty name;
+nothing is assumed about how the path is spelled: an unclean spelling raises the `alias` flag) -/
+def WFn (e : Entry) : Prop := e.kind ≠ .dir → parts e.name ≠ []
+
+theorem WF.toWFn {e : Entry} (h : WF e) : WFn e := fun hk => (h hk).2
+
 /-- the alias flag (F07g) is never benign: a benign list of alias flags is empty -/
 theorem aliasFlag_benign {t : Tree} {e : Entry} (h : Benign (aliasFlag t e)) : aliasFlag t e = [] := by
   unfold aliasFlag at h ⊢
   split
-  · split
+  · rename_i hu
+    rw [if_pos hu] at h
+    have := h _ (List.mem_singleton.2 rfl)
+    simp [Flag.benign] at this
+  · rename_i hu
+    rw [if_neg hu] at h
+    split
+    · split
+      · rfl
+      · rename_i hp hd
+        simp only [hp, hd, if_false] at h
+        have := h _ (List.mem_singleton.2 rfl)
+        simp [Flag.benign] at this
     · rfl
-    · rename_i hp hd
-      simp only [hp, hd, if_false] at h
-      have := h _ (List.mem_singleton.2 rfl)
-      simp [Flag.benign] at this
-  · rfl
 
 /-- combine "flags only grow" with the shape lemma of the inner function -/
-theorem combine {i : Nat} {e : Entry} {st st1 st' : St} {al : List Flag}
+theorem combine {i : Nat} {e : Entry} {st st1 st' : St} {al : List Flag} {P : Prop}
     (ht : st'.tree = st1.tree) (hi : st'.inst = st1.inst) (hfl : st'.flags = st1.flags ++ al)
-    (hmono : ∃ x, st1.flags = st.flags ++ x)
+    (hmono : ∃ x, st1.flags = st.flags ++ x) (hP : Benign al → P)
     (hshape : Benign al → ∃ x, st1.flags = st.flags ++ x ∧ (Benign x → Shape i e st st1)) :
-    ∃ x, st'.flags = st.flags ++ x ∧ (Benign x → Shape i e st st') := by
+    ∃ x, st'.flags = st.flags ++ x ∧ (Benign x → Shape i e st st' ∧ P) := by
   obtain ⟨x, hx⟩ := hmono
   refine ⟨x ++ al, by rw [hfl, hx, List.append_assoc], fun h0 => ?_⟩
   have hx0 : Benign x := (Benign_append.1 h0).1
   have hal : Benign al := (Benign_append.1 h0).2
   obtain ⟨x', hx', hs⟩ := hshape hal
   have : x' = x := List.append_cancel_left (hx'.symm.trans hx)
-  exact Shape.congr ht hi (hs (this ▸ hx0))
+  exact ⟨Shape.congr ht hi (hs (this ▸ hx0)), hP hal⟩
 
 theorem stepEntry_shape (c : Cfg) (hc : c.spec = false) (pkgs : List Pkg) (i : Nat) (e : Entry) (st st' : St) (b : Bool)
-    (h : stepEntry c pkgs i e st = .ok (st', b)) (hwf : WF e) :
-    ∃ x, st'.flags = st.flags ++ x ∧ (Benign x → Shape i e st st') := by
+    (h : stepEntry c pkgs i e st = .ok (st', b)) (hwf : WFn e) :
+    ∃ x, st'.flags = st.flags ++ x ∧
+      (Benign x → Shape i e st st' ∧ (e.kind ≠ .dir → joinNames (parts e.name) = e.name)) := by
   unfold stepEntry at h
   split at h
   · -- directory
+    rename_i hk
     split at h
     · cases h
     · rename_i t hm
       cases h
-      exact ⟨[], by simp, fun _ => Shape.grow rfl (mkdirAllAux_grows _ _ _ _ _ _ hm)⟩
+      exact ⟨[], by simp, fun _ => ⟨Shape.grow rfl (mkdirAllAux_grows _ _ _ _ _ _ hm), fun hn => absurd hk hn⟩⟩
   · -- regular file
     rename_i hk
-    obtain ⟨hcl, hne⟩ := hwf (by rw [hk]; decide)
+    have hne := hwf (by rw [hk]; decide)
     simp only [hc] at h
     split at h
     · obtain ⟨st1, hr, ht, hi, hfl⟩ := addFlags_ok h
-      refine combine ht hi hfl (lazyFile_flags _ _ _ _ _ _ _ hr) (fun hal => ?_)
+      refine combine ht hi hfl (lazyFile_flags _ _ _ _ _ _ _ hr)
+        (fun hal _ => clean_of_aliasFlag (aliasFlag_benign (by simpa using hal))) (fun hal => ?_)
       exact lazyFile_shape c hc pkgs i e st st1 b hr hne (aliasFlag_benign (by simpa using hal)) (by rw [hk]; decide)
     · obtain ⟨st1, hr, ht, hi, hfl⟩ := addFlags_ok h
-      refine combine ht hi hfl (streamReg_flags _ _ _ _ _ _ _ hr) (fun hal => ?_)
-      have hal' : aliasFlag st.tree e = [] := by
+      have hal0 : Benign (if false = true then [] else aliasFlag st.tree e ++ statThroughFlag st.tree e) →
+          aliasFlag st.tree e = [] := by
+        intro hal
         simp only [Bool.false_eq_true, if_false] at hal
         exact aliasFlag_benign (Benign_append.1 hal).1
-      exact streamReg_shape c pkgs i e st st1 b hr hne hal' hk
+      refine combine ht hi hfl (streamReg_flags _ _ _ _ _ _ _ hr)
+        (fun hal _ => clean_of_aliasFlag (hal0 hal)) (fun hal => ?_)
+      exact streamReg_shape c pkgs i e st st1 b hr hne (hal0 hal) hk
   · -- symlink
     rename_i hk
-    obtain ⟨hcl, hne⟩ := hwf (by rw [hk]; decide)
+    have hne := hwf (by rw [hk]; decide)
     simp only [hc] at h
     obtain ⟨st1, hr, ht, hi, hfl⟩ := addFlags_ok h
     split at hr
-    · refine combine ht hi hfl (lazyFile_flags _ _ _ _ _ _ _ hr) (fun hal => ?_)
+    · refine combine ht hi hfl (lazyFile_flags _ _ _ _ _ _ _ hr)
+        (fun hal _ => clean_of_aliasFlag (aliasFlag_benign (by simpa using hal))) (fun hal => ?_)
       exact lazyFile_shape c hc pkgs i e st st1 b hr hne (aliasFlag_benign (by simpa using hal)) (by rw [hk]; decide)
-    · refine combine ht hi hfl (streamLink_flags _ _ _ _ _ _ hr) (fun hal => ?_)
+    · refine combine ht hi hfl (streamLink_flags _ _ _ _ _ _ hr)
+        (fun hal _ => clean_of_aliasFlag (aliasFlag_benign (by simpa using hal))) (fun hal => ?_)
       obtain ⟨h1, h2⟩ := streamLink_shape c i e st st1 b hr hne (aliasFlag_benign (by simpa using hal))
       exact ⟨[], by simp [h1], fun _ => h2⟩
 
 /-- one header: flags only grow, and if none is raised the invariant is kept -/
 theorem stepEntry_inv (c : Cfg) (hc : c.spec = false) (pkgs : List Pkg) (i : Nat) (e : Entry) (st st' : St) (b : Bool)
-    (h : stepEntry c pkgs i e st = .ok (st', b)) (hwf : WF e) :
+    (h : stepEntry c pkgs i e st = .ok (st', b)) (hwf : WFn e) :
     ∃ x, st'.flags = st.flags ++ x ∧ (Benign x → OwnerInv st → OwnerInv st') := by
   obtain ⟨x, hx, hs⟩ := stepEntry_shape c hc pkgs i e st st' b h hwf
-  refine ⟨x, hx, fun h0 hI => OwnerInv_of_shape (fun hk => ?_) (hs h0) hI⟩
-  exact (hwf (by rw [hk]; decide)).1
+  refine ⟨x, hx, fun h0 hI => OwnerInv_of_shape (fun hk => ?_) (hs h0).1 hI⟩
+  exact (hs h0).2 (by rw [hk]; decide)
 
 theorem installPkg_inv (c : Cfg) (hc : c.spec = false) (pkgs : List Pkg) (i : Nat) :
     ∀ (es : List Entry) (st : St) (files : List Entry) (st' : St) (files' : List Entry),
-      installPkg c pkgs i es st files = .ok (st', files') → (∀ e ∈ es, WF e) →
+      installPkg c pkgs i es st files = .ok (st', files') → (∀ e ∈ es, WFn e) →
       ∃ x, st'.flags = st.flags ++ x ∧ (Benign x → OwnerInv st → OwnerInv st') := by
   intro es
   induction es with
@@ -418,7 +448,7 @@ theorem installPkg_inv (c : Cfg) (hc : c.spec = false) (pkgs : List Pkg) (i : Na
 
 theorem installFrom_inv (c : Cfg) (hc : c.spec = false) (pkgs : List Pkg) :
     ∀ (ps : List Pkg) (i : Nat) (st : St) (all : List (List Entry)) (st' : St) (all' : List (List Entry)),
-      installFrom c pkgs i ps st all = .ok (st', all') → (∀ p ∈ ps, ∀ e ∈ p.entries, WF e) →
+      installFrom c pkgs i ps st all = .ok (st', all') → (∀ p ∈ ps, ∀ e ∈ p.entries, WFn e) →
       ∃ x, st'.flags = st.flags ++ x ∧ (Benign x → OwnerInv st → OwnerInv st') := by
   intro ps
   induction ps with
